@@ -159,9 +159,9 @@ Qed.
 (* ------------------------------------------------------------------ the statement *)
 Theorem step_same : forall sch st s, stmt_class sch st s = 0 -> step false sch st s = step true sch st s.
 Proof.
-  intros sch st s Hc. unfold stmt_class in Hc. destruct s as [rows ret|w ret|sets w ret|]; cbn [step] in *.
+  intros sch st s Hc. unfold stmt_class in Hc. destruct s as [rows ret|w ret|sets w ret| |]; cbn [step] in *.
   - (* INSERT *)
-    unfold do_insert in *. destruct (forallb (row_fits (s_tys sch)) rows); [|reflexivity].
+    unfold do_insert in *. destruct (forallb (row_known (s_tys sch)) rows); [|reflexivity].
     destruct (ins_loop sch st rows 0) as [[b s1] n] eqn:E. destruct b; [reflexivity|]. cbn [fst] in Hc.
     destruct (0 <? n) eqn:En; [discriminate|]. apply Z.ltb_ge in En.
     pose proof (ins_loop_count_ge _ _ _ _ _ _ _ E).
@@ -197,6 +197,7 @@ Proof.
     { induction es as [|e es IH]; cbn [filter existsb cand]; intro H; [reflexivity|].
       apply orb_false_iff in H. destruct H as [De H]. unfold live. rewrite De. cbn [negb]. rewrite IH by exact H. reflexivity. }
     apply G. exact D.
+  - reflexivity.
 Qed.
 
 (* class 0 also means the statement is inside the modelled fragment *)
